@@ -69,10 +69,14 @@ static inline std::string compare(const N& n, const ref::Value& r, const std::st
       if (!n.IsNumber() || !n.IsUint64() || n.IsDouble()) return bad("kind is not uint64");
       if (n.GetUint64() != r.u) return bad("uint64 value " + std::to_string(n.GetUint64()));
       if (n.IsInt64() != (r.u <= (uint64_t)INT64_MAX)) return bad("IsInt64 inconsistent");
+      // the getters that are legal on this kind of number, each against the value
+      if (n.IsInt64() && n.GetInt64() != (int64_t)r.u) return bad("GetInt64 of a small unsigned integer");
+      if (n.GetDouble() != static_cast<double>(r.u)) return bad("GetDouble() of an unsigned integer is " + std::to_string(n.GetDouble()));
       return "";
     case ref::Sint:
       if (!n.IsNumber() || !n.IsInt64() || n.IsUint64() || n.IsDouble()) return bad("kind is not negative int64");
       if ((uint64_t)n.GetInt64() != r.u) return bad("int64 value " + std::to_string(n.GetInt64()));
+      if (n.GetDouble() != static_cast<double>((int64_t)r.u)) return bad("GetDouble() of a negative integer is " + std::to_string(n.GetDouble()));
       return "";
     case ref::Real: {
       if (!n.IsNumber() || !n.IsDouble() || n.IsUint64() || n.IsInt64()) return bad("kind is not double");
@@ -149,6 +153,19 @@ static inline std::string compare(const N& n, const ref::Value& r, const std::st
           if (n.FindMember(probe.data() + 1, key.size()) != exp) return bad("FindMember(ptr,len) key given as a slice of a longer buffer " + vr::hex(key));
           if (n.FindMember(StringView(probe.data() + 1, key.size())) != exp) return bad("FindMember(view) key given as a slice of a longer buffer " + vr::hex(key));
           if (!n.HasMember(StringView(probe.data() + 1, key.size()))) return bad("HasMember key given as a slice of a longer buffer");
+        }
+        if (!key.empty()) {
+          // ALIASING probe: a key that starts at the very address of this member's stored name but is one byte
+          // shorter (a prefix taken from the node's own name view, or a shorter slice of the caller's key buffer):
+          // it denotes a different key and must find the first member spelled like the prefix, or nothing
+          auto own = (n.MemberBegin() + j)->name.GetStringView();
+          std::string pre = key.substr(0, key.size() - 1);
+          size_t pf = 0;
+          while (pf < r.o.size() && r.o[pf].first != pre) pf++;
+          auto pexp = pf < r.o.size() ? n.MemberBegin() + pf : n.MemberEnd();
+          if (n.FindMember(StringView(own.data(), own.size() - 1)) != pexp) return bad("FindMember(view) with a prefix of the member's own name view (same address, shorter) " + vr::hex(key));
+          if (n.FindMember(own.data(), own.size() - 1) != pexp) return bad("FindMember(ptr,len) with a prefix of the member's own name view (same address, shorter) " + vr::hex(key));
+          if (n.HasMember(StringView(own.data(), own.size() - 1)) != (pf < r.o.size())) return bad("HasMember with a prefix of the member's own name view " + vr::hex(key));
         }
         if (!n.HasMember(StringView(key.data(), key.size()))) return bad("HasMember");
         if (&n[StringView(key.data(), key.size())] != &exp->value) return bad("operator[](key)");
